@@ -159,6 +159,36 @@ def run(ctx):
         sets.append((ns, [rng.choice([1, 1, 2, 3]) for _ in ns]))
     perm_check(ctx, "sort-permutations", sets)
     object_histories(ctx, 1500 if ctx.thorough else 250)
+    unicode_names(ctx, 4000 if ctx.thorough else 600)
+
+
+def unicode_names(ctx, count):
+    """"succeeds for every set of names": names with characters that LOOK like digits or numerals to some string predicates but not to
+    others (superscripts, subscripts, circled digits, vulgar fractions, Roman-numeral code points, Arabic-Indic and full-width digits).
+    Outside the Lean model's ASCII domain, so this stream is REAL CODE ONLY: the key is built and sets are sorted without an exception,
+    and the order does not depend on the initial order."""
+    from tola.assembly.assembly import Assembly
+    from tola.assembly.scaffold import Scaffold
+    rng, out = ctx.rng, ctx.out
+    odd = ["\u00b2", "\u00b3", "\u00b9", "\u2082", "\u2460", "\u00bd", "\u2163", "\u0663", "\uff12", "\u0969", "\u2075", "\u3007", "\u4e09"]
+    parts = ["SUPER_", "chr", "_", "I", "II", "IV", "V", "X", "1", "2", "10", "02", "a", "_unloc_", "H_"] + odd + odd
+    for _ in range(count):
+        names = ["".join(rng.choice(parts) for _k in range(rng.randint(1, 4))) for _n in range(rng.randint(1, 4))]
+        inp = {"names": names}
+        out.case("unicode-names", inp, ("unicode", len(names)))
+        try:
+            scs = [Scaffold(n, rank=rng.choice([1, 2, 3])) for n in names]
+            keys = [Assembly.name_natural_key(s_) for s_ in scs]
+            a1 = Assembly("x", scaffolds=list(scs)); a1.smart_sort_scaffolds()
+            a2 = Assembly("x", scaffolds=list(reversed(scs))); a2.smart_sort_scaffolds()
+            k1 = [(s_.rank, Assembly.name_natural_key(s_)) for s_ in a1.scaffolds]
+            k2 = [(s_.rank, Assembly.name_natural_key(s_)) for s_ in a2.scaffolds]
+            a3 = Assembly("x", scaffolds=list(scs)); a3.scaffolds_sorted_by_name()
+        except Exception as e:
+            out.oracle_fail("unicode-names", inp, f"sorting / building the key raised {conv.errkind(e)}")
+            continue
+        if k1 != k2:
+            out.oracle_fail("unicode-names", inp, "sort result depends on the initial order beyond equal keys")
 
 
 def object_histories(ctx, count):
